@@ -3004,11 +3004,12 @@ def _handler_only_reports(h: ast.ExceptHandler) -> bool:
         d = ast.unparse(c.func)
         root = d.split(".")[0]
         return d in ("print", "str", "repr", "type", "format", "len", "isinstance", "getattr", "warnings.warn", "textwrap.dedent") or root in ("logger", "logging", "log", "_logger", "LOGGER") \
+            or d.startswith("type(") \
             or d.endswith((".format", ".join", ".with_traceback", ".add_note")) or (d[:1].isupper() or "." in d and d.split(".")[-1][:1].isupper())      # building the exception to raise
 
     def ok(st: ast.stmt) -> bool:
         if isinstance(st, (ast.Raise, ast.Pass)):
-            return all(ok_call(c) for c in ast.walk(st) if isinstance(c, ast.Call))
+            return True     # whatever builds the exception that is raised (a constructor, a helper that words the message) reports, it does not repair
         if isinstance(st, (ast.Assign, ast.AnnAssign)) and all(isinstance(t, ast.Name) for t in (st.targets if isinstance(st, ast.Assign) else [st.target])):
             return all(ok_call(c) for c in ast.walk(st) if isinstance(c, ast.Call))
         if isinstance(st, ast.Expr):
